@@ -187,6 +187,18 @@ def c01_structured():
     tw3 = dict(tw, n3=dict(ops=["exc", "inh"], over={"inh/tau": 0.9}))
     out.append(("F9-twin-operators-3-no-edge-on-one-twin", dict(twins=True),
                 model([exc, inh], tw3, [edge("n1/exc/v", "n2/exc/u", 1.5), edge("n3/exc/v", "n1/exc/u", -0.5)])))
+    # F10: independent operators of one node whose NAMES are prefixes of one another and which share parameter names
+    # (pop / pop_slow / pop_s), the longer names declared later and earlier; no edges between them
+    po = op_li("pop", x="u", ins=("i1",), tau=2.0, x0=0.3, in_defaults={"i1": 0.1}, extra=["*", V("k"), V("a")])
+    po["vars"].update(k=["const", 1.5], a=["const", 0.4])
+    ps_ = op_li("pop_slow", x="w", ins=("i2",), tau=9.0, x0=-0.2, in_defaults={"i2": 0.3}, extra=["*", V("k"), V("a")])
+    ps_["vars"].update(k=["const", -2.5], a=["const", 1.7])
+    p3 = op_li("pop_s", x="z", ins=("i3",), tau=0.5, x0=0.6, in_defaults={"i3": -0.1}, extra=["*", V("k"), V("a")])
+    p3["vars"].update(k=["const", 0.25], a=["const", -0.9])
+    for order, tagx in ((("pop", "pop_slow", "pop_s"), "short-first"), (("pop_slow", "pop_s", "pop"), "short-last")):
+        out.append((f"F10-operator-names-prefix-of-each-other-{tagx}", dict(op_prefix=True),
+                    model([po, ps_, p3], {"n1": dict(ops=list(order)), "n2": dict(ops=list(order), over={"pop/tau": 3.0, "pop_slow/k": 0.5})},
+                          [edge("n1/pop/u", "n2/pop_s/i3", 0.7)])))
     return out
 
 
@@ -362,6 +374,15 @@ def c04_extra():
         out.append((f"V10-edge-template-second-input-by-path-{tagx}", dict(edge_template=True, path_input=True),
                     model([lin], nd, [dict(edge("a/lin/x", "c/lin/s_in", 1.0), tpl="dop", post={"x_t": "c/lin/x"}),
                                       dict(edge("c/lin/x", "b/lin/s_in", 0.5), tpl="dop", post={"x_t": "b/lin/x"})], edge_ops=[dop])))
+    # four and five edges sharing ONE edge template, every input of the edge operator mapped explicitly ('source' / a path)
+    nd4 = {lab: dict(ops=["lin"], over={"lin/k": 0.5 + 0.75 * j, "lin/x": 0.1 * (1 + j)}) for j, lab in enumerate("abcd")}
+    ring = [("d", "a", 0.6), ("a", "c", 1.0), ("c", "b", -0.5), ("b", "d", 1.5)]
+    out.append(("V11-edge-template-four-edges-explicit-inputs", dict(edge_template=True, path_input=True),
+                model([lin], nd4, [dict(edge(f"{s_}/lin/x", f"{t_}/lin/s_in", w_), tpl="dop", post={"x_s": "source", "x_t": f"{t_}/lin/x"})
+                                   for s_, t_, w_ in ring], edge_ops=[dop])))
+    out.append(("V12-edge-template-five-edges-explicit-source", dict(edge_template=True, path_input=True),
+                model([lin], nd4, [dict(edge(f"{s_}/lin/x", f"{t_}/lin/s_in", w_), tpl="eop", post={"pre": "source"}, eover={"gain": 0.5 + 0.5 * i})
+                                   for i, (s_, t_, w_) in enumerate(ring + [("a", "b", 0.3)])], edge_ops=[eop])))
     es6 = [dict(e_, tpl="eop") if i % 2 == 0 else e_ for i, e_ in enumerate(es4)]
     out.append(("V6-edge-template-mixed-with-plain", dict(edge_template=True), model([a, b], nodes4, es6, edge_ops=[eop])))
     return out
@@ -406,6 +427,9 @@ def c06_families():
     for t_, f_, m_ in c04_extra():
         if t_.startswith("V10"):
             out.append((t_.replace("V10-", "O9-"), dict(f_), m_))
+        # one edge template shared by several vectorised edge groups (three groups; four / five edges with explicit input maps)
+        if t_.startswith(("V5-", "V11-", "V12-")):
+            out.append((t_.replace("V5-", "O10-").replace("V11-", "O11-").replace("V12-", "O12-"), dict(f_), m_))
     out.append(("O7-perm-11", dict(population=11), st["F8-perm-11"]))
     nodes_r = {f"n{i}": dict(ops=["opB"], over={"opB/tau": 1.0 + 0.25 * i}) for i in range(12)}
     order = [0, 7, 3, 9, 1, 5, 10, 2, 8, 4, 6, 11]
